@@ -35,12 +35,15 @@ def check(model: Model, run: Run) -> None:
         b = cfg.stmt_node_containing(sends[0])
         ok = a is not None and b is not None and cfg.dominates(a, b) and any(st is a.ast for st in mainf.node.body)
     run.check(ok, mainf.qualname, 'replace_restart dominates the first _send_route_updates', mainf.loc(rr[0]) if rr else mainf.loc(), 'after (re-)establishment the complete Adj-RIB-Out must be queued before anything is sent')
-    sl = Slicer(model, mainf)
     okargs = False
     if rr and len(rr[0].args) == 2:
-        p = [norm(v) for v, _ in sl.defs.get(dotted(rr[0].args[0]) or '', []) if v is not None]
-        c = [norm(v) for v, _ in sl.defs.get(dotted(rr[0].args[1]) or '', []) if v is not None]
-        okargs = any('self.neighbor.previous.routes' in x for x in p) and any(x == 'self.neighbor.routes' for x in c)
+        ml0 = Loc(model, mainf)
+
+        def texts(a: ast.AST) -> list[str]:
+            vs = ml0.values(a.id) if isinstance(a, ast.Name) else []
+            return [ml0.expand(v) for v in vs] or [ml0.expand(a)]
+
+        okargs = any('self.neighbor.previous.routes' in x for x in texts(rr[0].args[0])) and any(x == 'self.neighbor.routes' for x in texts(rr[0].args[1]))
     run.check(okargs, mainf.qualname, 'replace_restart(previous configured routes, current configured routes)', mainf.loc(rr[0]) if rr else mainf.loc(), 'the delta of configured routes is previous -> current')
 
     # ------------------------------------------------------------------ R2
@@ -84,8 +87,9 @@ def check(model: Model, run: Run) -> None:
     okr = False
     if calls:
         g = flat_guards(rs.node, calls[0])
+        rsl = Loc(model, rs)
         # only the early "no restart" return may precede it
-        okr = all(('_restart' in norm(t) or 'ephemeral' in norm(t)) for t, pol in g) and any(st.value is calls[0] for st in rs.node.body if isinstance(st, ast.Expr))
+        okr = all(('_restart' in rsl.expand(t) or 'ephemeral' in rsl.expand(t)) for t, pol in g) and any(st.value is calls[0] for st in rs.node.body if isinstance(st, ast.Expr))
     run.check(okr, rs.qualname, 'neighbor.reset_rib() on every restarting path', rs.loc(calls[0]) if calls else rs.loc(), 'the queues of the lost session must be dropped before the next one')
     nr = model.func('exabgp.bgp.neighbor.neighbor.Neighbor.reset_rib')
     run.check('self.rib.reset()' in norm(nr.node), nr.qualname, 'calls self.rib.reset()', nr.loc(), 'reset_rib must reset the RIB')
@@ -138,7 +142,15 @@ def check(model: Model, run: Run) -> None:
     ne = model.func(PROTO + '.new_eors')
     run.analysed(ne)
     nep = [a.arg for a in ne.node.args.args]
-    fam = [n for n in walk_no_nested(ne.node) if isinstance(n, ast.Assign) and len(nep) >= 3 and amatch('self.negotiated.families if (V_a, V_s) == (AFI.undefined, SAFI.undefined) else [(V_a, V_s)]', n.value, {'V_a': nep[1], 'V_s': nep[2]}) is not None and isinstance(n.targets[0], ast.Name)]
+    nel = Loc(model, ne)
+
+    def _expanded(v: ast.AST) -> ast.AST:
+        try:
+            return ast.parse(nel.expand(v), mode='eval').body
+        except SyntaxError:
+            return v
+
+    fam = [n for n in walk_no_nested(ne.node) if isinstance(n, ast.Assign) and len(nep) >= 3 and amatch('self.negotiated.families if (V_a, V_s) == (AFI.undefined, SAFI.undefined) else [(V_a, V_s)]', _expanded(n.value), {'V_a': nep[1], 'V_s': nep[2]}) is not None and isinstance(n.targets[0], ast.Name)]
     each = False
     if len(fam) == 1:
         for lp in walk_no_nested(ne.node):
